@@ -23,7 +23,7 @@ RULE = ('generated specs (multi-namespace imports, cross-namespace parents and t
 ASSUMPTIONS = ['Identifiers follow the documented conventions and are not Python reserved words.']
 SCRIPT = os.path.join(VERIF_DIR, 'sv', 'py_introspect.py')
 
-C09_CFG = dict(alias_tag_defaults=True, omitted=True, doc_escapes=True, schema='generic', max_ns=4, max_types=6, max_routes=3, examples=True)
+C09_CFG = dict(alias_tag_defaults=True, alias_nesting_bias=True, omitted=True, doc_escapes=True, schema='generic', max_ns=4, max_types=6, max_routes=3, examples=True)
 
 
 def tb_text_sig(tb):
